@@ -247,6 +247,12 @@ func analyseResolver(c *core.Ctx, fn *ssa.Function, rules map[string]bool) {
 			if loc := locOf(x, val); strings.HasSuffix(loc, "·Elements") && strings.Contains(loc, "lookup(") {
 				report("C01-R5", "alias", in.Pos(), "the list under construction is assigned another recipe's element list itself (%s), not a copy: later merges and the sort then write into that recipe", loc)
 			}
+			// … or a slice of one (node.Elements[:0] to "reuse the storage"): the same backing array
+			if t, isT := val.(*absint.Term); isT && t.Op == "slice" && len(t.Args) > 0 {
+				if loc := locOf(x, t.Args[0]); strings.HasSuffix(loc, "·Elements") && strings.Contains(loc, "lookup(") {
+					report("C01-R5", "alias", in.Pos(), "the list under construction is a slice of a recipe's own element list (%s): it shares the backing array, so merging into it overwrites the entries that are still to be read", loc)
+				}
+			}
 		}
 		if !ok || !strings.HasSuffix(p.Loc, "·Elements") || !strings.HasPrefix(p.Loc, "L:") {
 			return
@@ -445,11 +451,24 @@ func splitTop(s string) []string {
 // ruleResolverEntries: public entry points start every walk at level 0 and, for
 // C01, every stored list is reachable from them.
 func ruleResolverEntries(c *core.Ctx, rule string, wantLevel, wantBound bool) {
+	type walker struct {
+		fn *ssa.Function
+		li int
+	}
+	var work []walker
 	for _, r := range recursiveResolvers(c.P) {
-		li, _, ok := levelParam(r)
-		if !ok {
+		if li, _, ok := levelParam(r); ok {
+			work = append(work, walker{r, li})
+		}
+	}
+	seenW := map[*ssa.Function]bool{}
+	for len(work) > 0 {
+		r, li := work[0].fn, work[0].li
+		work = work[1:]
+		if seenW[r] {
 			continue
 		}
+		seenW[r] = true
 		n := 0
 		for _, fn := range c.P.Funcs {
 			if fn == r {
@@ -476,6 +495,14 @@ func ruleResolverEntries(c *core.Ctx, rule string, wantLevel, wantBound bool) {
 					}
 					if cst, isC := a.(*ssa.Const); isC && cst.Int64() == 0 {
 						c.Discharge(rule, core.FuncName(fn), "level0→"+r.Name(), c.P.Pos(in.Pos()), "walk starts at depth 0")
+					} else if prm, isP := a.(*ssa.Parameter); isP && fn.Parent() == nil {
+						// a forwarder that hands its own depth parameter on: where the walk starts is decided by its callers
+						for pi, fp := range fn.Params {
+							if fp == prm {
+								work = append(work, walker{fn, pi})
+							}
+						}
+						c.Discharge(rule, core.FuncName(fn), "level0→"+r.Name(), c.P.Pos(in.Pos()), "forwards its own depth parameter "+prm.Name()+"; its callers are held to the rule")
 					} else {
 						c.Violate(rule, core.FuncName(fn), "level0→"+r.Name(), c.P.Pos(in.Pos()), "a walk starts at depth "+a.String()+" instead of the constant 0: the limit then counts from the wrong origin", nil)
 					}
@@ -483,7 +510,15 @@ func ruleResolverEntries(c *core.Ctx, rule string, wantLevel, wantBound bool) {
 			}
 		}
 		if n == 0 {
-			c.Undecide(rule, core.FuncName(r), "entry", c.P.Pos(r.Pos()), "the recursive resolver has no caller: no entry point found", nil)
+			isRec := false
+			for _, rr := range recursiveResolvers(c.P) {
+				isRec = isRec || rr == r
+			}
+			if isRec {
+				c.Undecide(rule, core.FuncName(r), "entry", c.P.Pos(r.Pos()), "the recursive resolver has no caller: no entry point found", nil)
+			} else {
+				c.Note(rule + ": " + core.FuncName(r) + " forwards its depth parameter to the resolver and has no caller in the tree")
+			}
 		}
 	}
 }
